@@ -843,7 +843,7 @@ theorem sel0_eq_spec (reg : Reg) (rd : Reader) (log : List Entry) (e : Eff)
         exact stream_unsliced reg rd log e
       rw [hstream]
       simp only [stored, hm, Variant.current, if_true, sliceN]
-      have hsl2 : sliceApplied ⟨true, true, true, true, true, true⟩ rd log e false = false := hsl
+      have hsl2 : sliceApplied ⟨true, true, true, true, true, true, true⟩ rd log e false = false := hsl
       rw [hsl2]
       by_cases hn : n < 0
       · have : ¬ (0 ≤ n) := by omega
